@@ -384,8 +384,9 @@ impl ArrayPartialEncoderTraits for ShardingPartialEncoder {
             }
         }
 
-        if shard_index.par_iter().all(|&x| x == u64::MAX) {
+        if !options.store_empty_chunks() && shard_index.par_iter().all(|&x| x == u64::MAX) {
             // Erase the shard if all chunks are empty
+            // (unless empty chunks are to be stored: the shard is then written with an empty index, as a full encode does)
             self.output_handle.erase()?;
         } else {
             // Encode the updated shard index
